@@ -356,7 +356,7 @@ fn count_end_instrs(h: &gimli::LineProgramHeader<R>) -> usize {
 
 /// failure classes that are recorded findings (known_findings.d/C04.json); an unlisted class
 /// found on the same input wins, so that a recorded finding cannot mask a new one
-const KNOWN_CLASSES: &[&str] = &["mono-suppressed-end", "seq-bounds-suppressed-end", "seq-start-empty"];
+const KNOWN_CLASSES: &[&str] = &["mono-suppressed-end", "seq-bounds-suppressed-end"];
 
 fn pick(findings: Vec<String>) -> Option<String> {
     let known = |s: &String| KNOWN_CLASSES.contains(&s.split(' ').next().unwrap_or(""));
